@@ -6,6 +6,7 @@ import (
 	"fmt"
 	"sort"
 	"sync"
+	"sync/atomic"
 	"time"
 
 	"github.com/samsarahq/thunder/reactive"
@@ -39,6 +40,11 @@ type InjSpec struct {
 	Action string `json:"action"` // invalidate | strobe | double-invalidate | stop | purge
 	Cell   int    `json:"cell"`
 	RR     int    `json:"rr"`
+	// restrobe only: write Trigger (style TrigStyle) so that rerunner RR
+	// re-runs and registers Cell's long-lived resource afresh, wait for that
+	// run (at most 20 ms), then bump + Strobe Cell again.
+	Trigger   int    `json:"trigger,omitempty"`
+	TrigStyle string `json:"trigger_style,omitempty"`
 }
 
 // Scenario is a complete, seed-determined description of one execution.
@@ -146,8 +152,38 @@ func Run(sc *Scenario, opt Options, agg *vlib.HitAgg) *Result {
 			inj.Act = func() { w.Log("inject", "stop"); w.RRs[in.RR].Stop() }
 		case "purge":
 			inj.Act = func() { w.Log("inject", "purge"); w.RRs[in.RR].Purge() }
+		case "restrobe":
+			// the visitor (normally a strobe pass that has just taken its
+			// snapshot) is held until the whole action is done
+			inj.Timeout = 30 * time.Millisecond
+			inj.Act = func() {
+				rr := w.RRs[in.RR]
+				w.mu.Lock()
+				before := rr.runs
+				w.logLocked("inject", in.RR, before, "restrobe: trigger")
+				w.mu.Unlock()
+				w.Cells[in.Trigger].Write(in.TrigStyle)
+				dl := time.Now().Add(20 * time.Millisecond)
+				for time.Now().Before(dl) {
+					w.mu.Lock()
+					done := !rr.liveLocked() || (rr.lastOK != nil && rr.lastOK.ID > before && rr.inflight == 0)
+					w.mu.Unlock()
+					if done {
+						break
+					}
+					time.Sleep(50 * time.Microsecond)
+				}
+				w.Log("inject", "restrobe: second strobe")
+				w.Cells[in.Cell].Write(WStrobe)
+			}
 		default:
 			panic("reactx: unknown injection action " + in.Action)
+		}
+		act := inj.Act
+		inj.Act = func() {
+			atomic.AddInt32(&w.pendingActs, 1)
+			defer atomic.AddInt32(&w.pendingActs, -1)
+			act()
 		}
 		y.Inject(inj)
 	}
@@ -298,6 +334,9 @@ func Run(sc *Scenario, opt Options, agg *vlib.HitAgg) *Result {
 func (w *World) settle(activity func() int64, opt Options) {
 	var livelock *RR
 	cond := func() bool {
+		if atomic.LoadInt32(&w.pendingActs) > 0 {
+			return false // an injected action is still issuing writes
+		}
 		w.mu.Lock()
 		defer w.mu.Unlock()
 		for _, rr := range w.RRs {
